@@ -49,6 +49,14 @@ class C02(Check):
             vitems = [["f", rng.choice([["bool"], ["u", 8, "s"], ["u", 13, "t"], ["var", ["u", 8, "s"], 2]]), "v%d" % i] for i in range(nv)]
             root["defs"].append({"name": rn + ".Tag", "ver": [1, 0], "port": None, "ext": "dsdl", "dep": False,
                                  "secs": [{"union": True, "hdr": None, "items": vitems, "seal": "sealed" if rng.random() < 0.6 else 8 * 64}]})
+        # delimited types whose extent is beyond what a double can represent exactly (and a container of one)
+        if rng.random() < 0.3 and not ({(rn + ".Wide").lower(), (rn + ".WideHost").lower()} & used):
+            ext = 8 * rng.choice([2**53 + 1, 2**57 + 1, 2**60 + 3, 2**61 - 1, (2**64 - 8) // 8, 2**70 + 5, 2**40 + 1])
+            root["defs"].append({"name": rn + ".Wide", "ver": [1, 0], "port": None, "ext": "dsdl", "dep": False,
+                                 "secs": [{"union": False, "hdr": None, "items": [["f", ["u", 8, "s"], "a"], ["f", ["var", ["u", 16, "s"], 3], "b"]], "seal": ext}]})
+            wref = ["ref", rn + ".Wide", 1, 0]
+            root["defs"].append({"name": rn + ".WideHost", "ver": [1, 0], "port": None, "ext": "dsdl", "dep": False,
+                                 "secs": [{"union": False, "hdr": None, "items": [["f", ["u", 3, "s"], "pre"], ["f", wref, "w"], ["f", ["arr", wref, 2], "ws"], ["f", ["u", 8, "s"], "tail"]], "seal": "sealed"}]})
         # a definition with an *approximately equal* second revision (same name, version, kind, min, max and residues mod 32 of
         # the length set, different members) used as the element of a fixed and of a variable-length array
         apx = None
@@ -71,6 +79,21 @@ class C02(Check):
         from .c06 import permuted_revision
         import copy
         out = Outcome()
+        try:
+            return self._execute(scn, out)
+        except InvalidScenario:
+            raise
+        except Exception as ex:
+            from .base import raised_inside_sut
+            if not raised_inside_sut(ex):
+                raise
+            import traceback
+            out.fail("C02.lenset", "a layout query on a valid type raised %s: %s\n%s" % (type(ex).__name__, str(ex)[:200], "".join(traceback.format_tb(ex.__traceback__)[-3:])[-600:]), "query-raised:" + type(ex).__name__)
+            return out
+
+    def _execute(self, scn: dict, out: Outcome) -> Outcome:
+        from .c06 import permuted_revision
+        import copy
         self._run(scn["ws"], out)
         ws2 = permuted_revision(scn["ws"], 12345)
         if scn.get("apx"):
@@ -102,6 +125,19 @@ class C02(Check):
             return out
         try:
             res = node.uni.res
+            def client_arithmetic():
+                # history: a client computes with the sets it got from the types (offsets of its own, buffer sizes); the sets are
+                # values - building new sets from them must not change the types they came from
+                for k, t in node.types.items():
+                    parts = [t.request_type, t.response_type] if isinstance(t, pydsdl.ServiceType) else [t]
+                    for p0 in parts:
+                        for obj in [p0] + [f.data_type for f in p0.fields] + [f.data_type.element_type for f in p0.fields if isinstance(f.data_type, pydsdl.ArrayType)]:
+                            b0 = obj.bit_length_set
+                            _ = (b0 + 16, 8 + b0, b0 | 8, b0 + {0, 8}, b0.repeat(2), b0.repeat_range(2), b0.pad_to_alignment(8), pydsdl.BitLengthSet.concatenate([b0, 8, b0]), pydsdl.BitLengthSet.unite([b0, b0 + 8]))
+                            out.stats["client_set_arithmetic"] += 1
+            arithmetic_first = len(node.types) % 2 == 0  # before anything was queried (nothing memoised yet) or after
+            if arithmetic_first:
+                client_arithmetic()
             m = realcanon.Matcher(res, explicit_limit=3000)
             from ..worlds.values import rebuild, CONTAINERS
             for i, (k, t) in enumerate(node.types.items()):
@@ -119,6 +155,13 @@ class C02(Check):
             for b in m.bad[:5]:
                 oracle = "C02.prefix" if ("prefix" in b or "tag width" in b or "header" in b) else "C02.align" if "alignment" in b else "C02.extent" if "extent" in b else "C02.lenset"
                 out.fail(oracle, b, oracle.split(".")[1] + ":" + b.split(": ", 1)[-1].split(" ")[0])
+            if not arithmetic_first:
+                client_arithmetic()
+            m2 = realcanon.Matcher(res, explicit_limit=3000)
+            for k, t in node.types.items():
+                m2.message(k + " (after client arithmetic on its bit length sets)", k, t, docs=False)
+            for b in m2.bad[:3]:
+                out.fail("C02.lenset", b, "client-arithmetic:" + b.split(": ", 1)[-1].split(" ")[0])
             for key, si, real, sec in node.sections():
                 feats = type_features(res, sec)
                 bls = real.bit_length_set
